@@ -48,6 +48,7 @@ type wcScen struct {
 	Signed  bool     `json:"signed"`
 	Steps   []wcStep `json:"steps"`
 	Origin  string   `json:"origin"`
+	EMVar   bool     `json:"emvar"` // edge-multi trigger in variable-length mode: records shorter than nsamp are published
 }
 
 func crc(b []byte) int { return int(crc32.ChecksumIEEE(b) & 0x3fffffff) }
@@ -453,6 +454,9 @@ func wcRun(id int, sc *wcScen) {
 		all[i] = i
 	}
 	ts := TriggerState{AutoTrigger: true, AutoDelay: 0}
+	if sc.EMVar {
+		ts = TriggerState{EdgeMulti: true, EMTState: EMTState{mode: EMTRecordsVariableLength, threshold: 12, nmonotone: 1}}
+	}
 	if err := ds.ChangeTriggerState(&FullTriggerState{ChannelIndices: all, TriggerState: ts}); err != nil {
 		panic(err)
 	}
@@ -486,7 +490,7 @@ func wcRun(id int, sc *wcScen) {
 	projList := append([]int{}, sc.Proj...)
 	sort.Ints(projList)
 	vEmit(vmap{"ev": "Config", "scen": id, "origin": sc.Origin, "nchan": sc.Nchan, "proj": projList, "npre": sc.Npre, "nsamp": sc.Nsamp,
-		"nbases": sc.Nbases, "rows": sc.Rows, "cols": sc.Cols, "subdiv": sc.SubDiv, "chans": chans, "signed": sc.Signed})
+		"nbases": sc.Nbases, "rows": sc.Rows, "cols": sc.Cols, "subdiv": sc.SubDiv, "chans": chans, "signed": sc.Signed, "emvar": sc.EMVar})
 	vTakeRecords()
 
 	dirIdx := map[string]int{}
@@ -664,6 +668,10 @@ func wcRandom(rng interface{ Intn(int) int }, i int) *wcScen {
 		if rng.Intn(2) == 0 {
 			sc.Proj = append(sc.Proj, c)
 		}
+	}
+	if rng.Intn(5) == 0 {
+		sc.EMVar = true
+		sc.Proj = nil // projections of variable-length records are not defined
 	}
 	sc.Npre = 3 + rng.Intn(4)
 	sc.Nsamp = sc.Npre + 1 + rng.Intn(8)
